@@ -177,6 +177,7 @@ func geomCase(k *run.K) {
 		"Reverse": g.Reverse(), "Force2D": g.Force2D(), "ForceCW": g.ForceCW(), "ForceCCW": g.ForceCCW(),
 		"ForceXYZ": g.ForceCoordinatesType(geom.DimXYZ), "ForceXYM": g.ForceCoordinatesType(geom.DimXYM),
 		"ForceXYZM": g.ForceCoordinatesType(geom.DimXYZM), "permute": permuteMembers(k.Rng, g),
+		"independent Z/M at every control point": shared.Payload(k.Rng, g, shared.PayloadCT(k.Rng)),
 	}
 	for name, h := range inv {
 		k.Check("invariance", envEq(h.Envelope(), e), "envelope changed under %s: %v -> %v", name, e, h.Envelope())
